@@ -1280,6 +1280,14 @@ def getattr(I, obj, name):
                 if v is UNDEF:
                     raise PyExc('AttributeError', name)
                 return v
+            if name == '__doc__' and obj.cls is not None:
+                import ast as _ast
+                for c in obj.cls.mro():
+                    d = _ast.get_docstring(c.node, clean=False)
+                    if d is not None:
+                        return d
+                    break                       # __doc__ is not inherited
+                return None
             if obj.cls is not None:
                 if cv is not UNDEF:
                     if isinstance(cv, Closure):
@@ -1572,6 +1580,14 @@ def container_method(I, obj, name):
             return B(pop)
         if name == 'copy':
             return B(lambda I_, a, k: st.alloc('dict', dict(cell)))
+        if name == 'popitem':
+            def popitem(I_, a, k):
+                if not cell:
+                    raise PyExc('KeyError', 'popitem(): dictionary is empty')
+                st.note_write(obj)
+                kk = list(cell.keys())[-1]          # LIFO, as dict.popitem since python 3.7
+                return (kk, cell.pop(kk))
+            return B(popitem)
         if name == 'setdefault':
             def sd(I_, a, k):
                 for kk, vv in cell.items():
